@@ -66,6 +66,10 @@ def run(pid, t, replay=None):
             pairs = [(a, b) for a in marks for b in marks if a >= p and b >= p and b > a]
             for a, b in rnd.sample(pairs, min(len(pairs), 14 if t == "quick" else 60)):
                 scns.append(dict(p=p, la=a - p, lb=b - p, estimate_only=True))
+        # the serving peer reorganised across fork-id checkpoints: it still stores the abandoned branch
+        for p, a, b in [(5, 12, 15), (3, 11, 21), (8, 10, 12), (9, 21, 31), (1, 20, 30), (15, 31, 41)] + ([(5, 52, 61), (25, 40, 76)] if t == "thorough" else []):
+            scns.append(dict(p=p, la=a - p, lb=b - p, estimate_only=True, b_knows_a=True))
+            scns.append(dict(p=p, la=a - p, lb=b - p, b_knows_a=True, mode="random", seed=rnd.randint(0, 10 ** 6), batch=rnd.choice([1, 3, 10])))
         # GEN 2: the exchange; every small (p, la, lb) under three fixed schedules, then seeded random ones
         for c in inst:
             for mode in ("fifo", "lifo", "random"):
@@ -73,7 +77,8 @@ def run(pid, t, replay=None):
         for i in range(RANDOM_N[t]):
             la = rnd.choice([0, 0, 1, 2, 3, 5])
             scns.append(dict(p=rnd.choice([0, 1, 2, 3, 5, 8, 12, 21]), la=la, lb=la + rnd.randint(1, 9), seed=rnd.randint(0, 10 ** 9),
-                             mode=rnd.choice(["random", "random", "random", "fifo", "lifo"]), batch=rnd.choice([1, 2, 3, 10])))
+                             mode=rnd.choice(["random", "random", "random", "fifo", "lifo"]), batch=rnd.choice([1, 2, 3, 10]),
+                             b_knows_a=rnd.random() < 0.2, fails=rnd.choice([0, 0, 1, 2, 4])))
     spath = os.path.join(wd, "scenarios.jsonl")
     with open(spath, "w") as f:
         for s in scns:
